@@ -1205,6 +1205,18 @@ class Exec:
         self.new_frame(p, fn, args)
         return self.explore([p])
 
+    def resume(self, p, fn, args):
+        """run another call on the final state of a finished path (its state, path condition and ghost log carry over)"""
+        q = p.fork()
+        q.frames = []
+        q.status = 'running'
+        q.ret = None
+        q.note = None
+        for k in [k for k in q.st if not k.startswith('#')]:
+            del q.st[k]
+        self.new_frame(q, fn, args)
+        return self.explore([q])
+
     def explore(self, work):
         done = []
         while work:
